@@ -2447,7 +2447,7 @@ def run(ctx):
         for _ in range(60 if quick else 400):
             cases.extend(gen_siblings(rng))
         # (o) workflows with 12-14 stages, user variables from YAML and .conf files, every stage asked
-        for _ in range(6 if quick else 100):
+        for _ in range(6 if quick else 50):
             cases.extend(gen_stages(rng))
         # every case is also asked through the flattened forms of its description (what the runtime executes)
         for case in cases:
